@@ -91,9 +91,12 @@ U(name="B.str.split_ref", harness="harness/str_split_ref.c", mode="P", unwind=41
   bounded="NUL-terminated buffer of at most 40 bytes (all contents); loops unrolled to the buffer size",
   functions=["str_split"], props=["C09"], timeout=900)
 
-U(name="U.str.write", harness="harness/str_write.c", mode="H", loops=True, profiles=["write_str"],
+U(name="U.str.write", harness="harness/str_write.c", mode="H", loops=True, profiles=["write_str"], defines=["SRC_OBJ=64"],
   functions=["write_str"], loop_contracts=["write_str"], expect_loop_obligations=2, unwind=POLYSEED_STR_SIZE_PLUS1,
-  props=["C03", "C17"], timeout=900)
+  note="source string object of 64 bytes (every table word and separator is shorter); any cursor position", props=["C03", "C17"], timeout=900)
+U(name="U.str.write.full", harness="harness/str_write.c", mode="H", loops=True, profiles=["write_str"], quick=False,
+  functions=["write_str"], loop_contracts=["write_str"], expect_loop_obligations=2, unwind=POLYSEED_STR_SIZE_PLUS1,
+  note="source string object as large as a polyseed_str", props=["C03", "C17"], timeout=1800)
 
 for kind in ("STR", "PREFIX", "STR_NOACCENT", "PREFIX_NOACCENT"):
     U(name="B.cmp." + kind.lower(), harness="harness/cmp_func.c", mode="P", defines=["CMP_" + kind], unwind=12,
